@@ -22,7 +22,8 @@ EXPLANATION = (
     "merge_external(.., [0], false), record constructor) is equal between Sort::predict_with_scene and "
     "BatchSort::predict + its voting thread, and between the VisualSORT pair, modulo an explicit difference table; "
     "own-area shares are computed and indexed identically in both front ends."
-    ' (R06.7) channels that carry commands to store workers / voting threads are unbounded (submission never blocks while results are read afterwards by the submitting thread); (R06.8) one entry - hence one job and one epoch step - per scene id of a batch.')
+    ' (R06.7) channels that carry commands to store workers / voting threads are unbounded (submission never blocks while results are read afterwards by the submitting thread); (R06.8) one entry - hence one job and one epoch step - per scene id of a batch.'
+    ' (R06.9) both front ends reach the same assignment and the same shards whatever the store holds: winners come from the one maximising assignment (no size-dependent shortcut) and shards / workers are selected by id % n.')
 NOT_DECIDED = ["equivalence of outputs under all schedules as an input-output statement",
                "liveness when the consumer never retrieves results (excluded by the property's proviso)"]
 ASSUMPTIONS = ["std Mutex/RwLock/Condvar and crossbeam channels behave as documented", "panics (lock poisoning) out of scope",
